@@ -70,6 +70,12 @@ def cases(tier, rng):
                     ops += traffic(t, others)
                     out.append("c%d.%s.%d.%s sock %s / %s" % (k, t, cut - hs, kind[:3], t, " / ".join(ops)))
                     k += 1
+                    # the same with a monitor that nobody reads (receiver dropped / kept but never drained): reporting the
+                    # failure to it must not get in the way of handling the failure
+                    if nothers == 1:
+                        for flag in (["mondrop"] + (["mon"] if cut % 4 == 0 else [])):
+                            out.append("c%d.%s.%d.%s sock %s %s / %s" % (k, t, cut - hs, kind[:3], t, flag, " / ".join(ops)))
+                            k += 1
             # write error after a complete handshake, at different points of the traffic
             for kind in ("BrokenPipe", "ConnectionReset"):
                 ops = ["attach %s %s" % (o, pt) for o in others]
@@ -83,6 +89,9 @@ def cases(tier, rng):
                 ops += traffic(t, others)
                 out.append("w%d.%s.%s sock %s / %s" % (k, t, kind, t, " / ".join(ops)))
                 k += 1
+                if nothers == 1:
+                    out.append("w%d.%s.%s sock %s mondrop / %s" % (k, t, kind, t, " / ".join(ops)))
+                    k += 1
     # an orderly close between messages (which the socket does not report: the listed finding) FOLLOWED by a failing write:
     # that failure is an observation, after which the peer is forgotten and released like any other
     for t in ("ROUTER", "DEALER"):
@@ -112,7 +121,7 @@ def model_cases(case_lines):
         if not compare_filter(line):
             out.append(line)
             continue
-        parts = line.split(" / ")
+        parts = line.replace(" mondrop / ", " / ", 1).replace(" mon / ", " / ", 1).split(" / ")
         new = []
         for p in parts:
             sp = p.split()
